@@ -155,6 +155,9 @@ def Grid.getWeightsOld (g : Grid) : Option Weights :=
 def Grid.materialize (g : Grid) : Option Grid :=
   g.getWeights.map fun w => { g with weights := w }
 
+/-- `grid.weights = w`: the stored weights are replaced (after the repair D87 by a private copy of an array), nothing else -/
+def Grid.setWeights (w : Weights) (g : Grid) : Grid := { g with weights := w }
+
 def Weights.mul (k : Rat) : Weights → Weights
   | .none => .none
   | .scalar w => .scalar (w * k)
